@@ -208,7 +208,7 @@ def run_chunk(binary, profile, faults, base, count, outdir, deny, samples, mode=
             elif line.startswith('V '):
                 head, _, text = line.partition(' | ')
                 f = head.split()
-                events.append(('V', int(f[1]), f[2], f[3], f[4], text))
+                events.append(('V', int(f[1]), f[2], f[3], f[4], text, cur))   # (cur: the first seed this worker process ran)
             elif line.startswith('K '):
                 f = line.split(); events.append(('K', int(f[1]), int(f[2])))
             elif line.startswith('L '):
@@ -703,7 +703,7 @@ def main():
                 if bit >= 0 and (e[4] >> bit) & 1:
                     res.nontrivial += 1; res.fps.add(e[3])
             elif e[0] == 'V':
-                rec = dict(seed=e[1], props=e[2], oracle=e[3], path=e[4], text=e[5], profile=name, faults=faults, deep=deep)
+                rec = dict(seed=e[1], props=e[2], oracle=e[3], path=e[4], text=e[5], profile=name, faults=faults, deep=deep, start=e[6] if len(e) > 6 else e[1])
                 (res.viol if prop in e[2].split(',') else res.foreign).append(rec)
             elif e[0] == 'C':
                 rec = dict(seed=e[1], crash=(e[2], e[3], e[4]), stderr=e[5], profile=name, faults=faults, deep=deep)
@@ -785,6 +785,28 @@ def main():
         if kind == 'c' and c['crash'][0] == 'hang' and r1['kind'] == 'ok' and r2['kind'] == 'ok' and r1.get('hash') == r2.get('hash'):
             log('note: seed %d was silent for %d s in a worker but completes normally when replayed (machine load, not a hang)' % (c['seed'], IDLE_S))
             continue
+        if kind == 'v' and r1['kind'] == 'ok' and r2['kind'] == 'ok' and c.get('start', c['seed']) < c['seed'] and os.path.basename(binary) == 'simH':
+            # the plan alone is clean in a fresh process: does the violation need the runs before it in the same process
+            # (state the library keeps across worlds)? Replay the whole stretch of seeds, twice, in fresh processes.
+            os.makedirs(final_dir, exist_ok=True)
+            rpath = os.path.join(final_dir, 'history-seed-%d-to-%d-%s-%s.replay' % (c['start'], c['seed'], c['profile'], re.sub(r'[^A-Za-z0-9_]+', '_', c['oracle'])))
+            with open(rpath, 'w') as f:
+                f.write('# trompeloeil deterministic-simulation replay file v1\n# the violation shows only after the runs before it in the same process: replay runs the whole range\n'
+                        'binary simH\nprofile %s\nproperty %s\noracle %s\nviolation %s\nrange %s %d %d %d %s\n'
+                        % (c['profile'], c['props'], c['oracle'], c['text'][:3000], c['profile'], c['start'], c['seed'] - c['start'] + 1, c['faults'], ' '.join(deny + (['--deep'] if c.get('deep') else []))))
+            h1 = replay(binary, rpath, timeout=600); h2 = replay(binary, rpath, timeout=600)
+            if same_class(h1, want) and same_class(h2, want) and h1.get('hash') == h2.get('hash'):
+                hit = None
+                for k in known:
+                    if matches_known(k, prop, dict(kind='violation', oracle=c['oracle'], crash=('', '', '')), []):
+                        hit = k; break
+                if hit:
+                    known_hits[hit['id']] = (hit, rpath)
+                else:
+                    out_lines.append('VIOLATION property=%s replay=%s' % (prop, rpath)); exit_code = 1; reported += 1
+                    log('violation (needs the preceding runs of the same process, seeds %d..%d): %s' % (c['start'], c['seed'], c['text'][:1200]))
+                continue
+            os.remove(rpath)
         if not same_class(r1, want) or not same_class(r2, want) or r1.get('hash') != r2.get('hash'):
             harness_fault = 'candidate from seed %d (%s) did not reproduce identically in fresh processes: %s / %s' % (c['seed'], want.get('oracle', want.get('crash')), r1, r2)
             continue
